@@ -23,6 +23,7 @@ class Gen:
         self.types = sorted(T for T in self.sp if T != "Output")
         self.max_lines = max_lines or (64 if tier == "quick" else 512)
         self.type_cursor = rng.randrange(len(self.types))
+        self.force_nest = 0  # C15: force a MetaModule inside every embedded project down to this depth
 
     # ------------------------------------------------------------- scalars
     def pick(self, lo, hi, default=None):
@@ -358,7 +359,8 @@ class Gen:
     def metamodule(self, d, depth, n_user=None):
         """Embedded project, mappings, labels, user-defined values established 'the public way'."""
         r = self.rng
-        emb = self.project(depth + 1, max_modules=4, as_embedded=True)
+        forced = ["MetaModule"] if self.force_nest > depth else None
+        emb = self.project(depth + 1, max_modules=4, as_embedded=True, types=forced)
         n = n_user if n_user is not None else r.choice([0, 0, 1, 2, 3, 27, 95, 96, r.randint(0, 96)])
         d["options"]["user_defined_controllers"] = n
         mods = emb["modules"]
@@ -400,9 +402,11 @@ class Gen:
         r = self.rng
         modern = r.random() < 0.9
         nmod = r.randint(0, max_modules)
+        if types:
+            nmod = max(nmod, len(types) + 1)
         modules = [self.output_module()]
         for i in range(nmod):
-            if r.random() < 0.15:
+            if r.random() < 0.15 and not types:
                 modules.append(None)
                 continue
             if types:
